@@ -1,5 +1,15 @@
-"""Property -> rule composition."""
+"""Property -> rule composition.
+
+Every property is decided by a list of rules.  A rule is a callable `rule(facts) -> RuleResult`
+(structural rules) or one of the typestate-interpreter disciplines (`D:<NAME>`).  The quick tier
+evaluates the rules on the all-stable-features configuration; the thorough tier additionally
+evaluates them on the other feature configurations and runs the compile-fail witnesses and the
+self-test mutant corpus of that property (see thorough.py).
+"""
+import facts as factsmod
 import rules_protocol as RP
+import rules_struct as RS
+import rules_hooks as RH
 
 ASSUME_COMMON = [
     "rustc's type checker, MIR construction and drop elaboration (facts are read from the compiler, -Zmir-opt-level=0)",
@@ -8,24 +18,75 @@ ASSUME_COMMON = [
     "structural induction over the combinator tree: each body is checked against the contract assuming its children satisfy it",
 ]
 
+# rule name -> callable(facts) ; "D:X" = typestate discipline X
+STRUCT = {
+    "FREEZE": RS.rule_freeze,
+    "STATICS": RS.rule_statics,
+    "OWN-STATE": RS.rule_own_state,
+    "RECURSE": RS.rule_recurse,
+    "MODE-PAIR": RS.rule_mode_pair,
+    "MODE-PURE": RS.rule_mode_pure,
+    "UNSAFE-INV": RS.rule_unsafe_inv,
+    "MAYBEUNINIT": RS.rule_maybeuninit,
+    "HOOKS-WRITERS": RH.rule_who_may_write,
+    "HOOKS-TOKEN": RH.rule_token_hooks,
+    "HOOKS-SAVE-REWIND": RH.rule_save_rewind,
+    "SUB-INPUT": RH.rule_sub_inputs,
+}
 
-def _in(*subs):
-    return lambda u: any(s in u for s in subs)
+PROP_RULES = {
+    "C04": ["MODE-PAIR", "MODE-PURE"],
+    "C05": ["D:POISON", "D:KEEP", "D:LIFO", "HOOKS-SAVE-REWIND", "HOOKS-WRITERS"],
+    "C06": ["D:ALT-LINEAR", "D:ALT-POS", "D:PFAIL"],
+    "C12": ["RECURSE"],
+    "C13": ["FREEZE", "STATICS", "OWN-STATE"],
+    "C18": ["HOOKS-WRITERS", "HOOKS-TOKEN", "HOOKS-SAVE-REWIND", "SUB-INPUT", "D:POISON", "D:KEEP"],
+    "C19": ["UNSAFE-INV", "MAYBEUNINIT"],
+    "C20": ["D:PFAIL", "RECURSE"],
+}
+
+# rules that only exist when a feature is compiled in: rule -> required feature
+NEEDS_FEATURE = {}
 
 
-def C05(tier):
-    run = RP.get_run("all")
-    return RP.discipline(run, ["POISON", "KEEP", "LIFO"])
+def eval_rules(names, config="all"):
+    facts = factsmod.load(config)
+    res = []
+    disc = [n[2:] for n in names if n.startswith("D:")]
+    if disc:
+        run = RP.get_run(config)
+        res.extend(RP.discipline(run, disc))
+    for n in names:
+        if n.startswith("D:"):
+            continue
+        if n == "RECURSE":
+            res.append(RS.rule_recurse(facts, has_stacker="stacker" in facts.features))
+        else:
+            res.append(STRUCT[n](facts))
+    # keep declared order
+    order = {(n[2:] if n.startswith("D:") else n): i for i, n in enumerate(names)}
+    res.sort(key=lambda r: order.get(r.rule, 99))
+    return res
 
 
-def C06(tier):
-    run = RP.get_run("all")
-    return RP.discipline(run, ["ALT-LINEAR", "ALT-POS", "PFAIL"])
+def make_prop(pid):
+    def run(tier):
+        results = eval_rules(PROP_RULES[pid], "all")
+        if tier == "thorough":
+            import thorough
+            results.extend(thorough.extra(pid, PROP_RULES[pid]))
+        return results
+    return run
 
 
-def C20(tier):
-    run = RP.get_run("all")
-    return RP.discipline(run, ["PFAIL"])
+PROPS = {pid: make_prop(pid) for pid in PROP_RULES}
 
 
-PROPS = {"C05": C05, "C06": C06, "C20": C20}
+def run_all_rules(config="all"):
+    """Used by tools/gen_floors.py: evaluate every rule once on `config`."""
+    names = []
+    for rs in PROP_RULES.values():
+        for n in rs:
+            if n not in names:
+                names.append(n)
+    return eval_rules(names, config)
